@@ -13,7 +13,9 @@ var SepsBasic = []string{"", "\t", "\v", "\f", "\r", "\n", "\r\n", "\u0085", " 
 // Comments with tricky bodies, each ended by LF or CR.
 var SepsComments = []string{"#c\n", "#\n", "#\r", " # \"q\n", "#\\\n", "# print 1\n", "#é ü\n", "## ;\n", "#)\r", "# \u0085 x )\n", "#  \r\n", "#}\n#{\n",
 	// characters whose code point ends in the byte of LF / CR / space / NBSP (U+010A, U+010D, U+4E0A, U+0120, U+01A0)
-	"#\u010d x )\n", "# \u010a print 1\n", "#\u4e0a ;\r", "#\u0120\u01a0 (\n"}
+	"#\u010d x )\n", "# \u010a print 1\n", "#\u4e0a ;\r", "#\u0120\u01a0 (\n",
+	// comments that end in one, two, three backslashes (a path, a line continuation of another language) before every kind of line end
+	"#\\\r", "#\\\r\n", "# C:\\docs\\\r", "#\\\\\r", "#\\\\\\\r", "#\\\\\\\n", "#\"\\\r", "#\\\"\r", "#\\\"\n"}
 
 // SplitTokens splits a source into token texts plus a verbatim tail (the text after
 // the last complete token: trailing layout or the text of a lexical failure).
